@@ -553,19 +553,19 @@ func driverMain(id, tier string) int {
 
 func round3(x float64) float64 { return float64(int64(x*1000+0.5)) / 1000 }
 
-func replayMain(path string) int {
+// ReplayFile re-executes the history recorded in a replay file on the real
+// code, with every oracle of its scenario, without the explorer.
+func ReplayFile(path string) (property string, fails []Fail, err error) {
 	b, err := os.ReadFile(path)
 	if err != nil {
-		fmt.Fprintln(os.Stderr, err)
-		return 2
+		return "", nil, err
 	}
 	var rep struct {
 		Property, Clause, Check, Tier, Scenario, Seed string
 		History                                       []string
 	}
 	if err := json.Unmarshal(b, &rep); err != nil {
-		fmt.Fprintln(os.Stderr, err)
-		return 2
+		return "", nil, err
 	}
 	id := rep.Check
 	if id == "" {
@@ -573,8 +573,7 @@ func replayMain(path string) int {
 	}
 	p := Registry[id]
 	if p == nil {
-		fmt.Fprintf(os.Stderr, "unknown property %s\n", id)
-		return 2
+		return rep.Property, nil, fmt.Errorf("unknown property %s", id)
 	}
 	for _, tier := range []string{rep.Tier, "quick", "thorough"} {
 		if tier == "" {
@@ -585,20 +584,24 @@ func replayMain(path string) int {
 				continue
 			}
 			fails, err := sh.Replay(rep.Seed, rep.History)
-			if err != nil {
-				fmt.Fprintln(os.Stderr, err)
-				return 2
-			}
-			if len(fails) == 0 {
-				fmt.Printf("replay of %s: every clause holds on this history\n", path)
-				return 0
-			}
-			for _, f := range fails {
-				fmt.Printf("VIOLATION property=%s replay=%s\n  clause=%s\n  %s\n", rep.Property, path, f.Clause, strings.ReplaceAll(f.Detail, "\n", "\n  "))
-			}
-			return 1
+			return rep.Property, fails, err
 		}
 	}
-	fmt.Fprintf(os.Stderr, "scenario %s not found for %s\n", rep.Scenario, id)
-	return 2
+	return rep.Property, nil, fmt.Errorf("scenario %s not found for %s", rep.Scenario, id)
+}
+
+func replayMain(path string) int {
+	prop, fails, err := ReplayFile(path)
+	if err != nil {
+		fmt.Fprintln(os.Stderr, err)
+		return 2
+	}
+	if len(fails) == 0 {
+		fmt.Printf("replay of %s: every clause holds on this history\n", path)
+		return 0
+	}
+	for _, f := range fails {
+		fmt.Printf("VIOLATION property=%s replay=%s\n  clause=%s\n  %s\n", prop, path, f.Clause, strings.ReplaceAll(f.Detail, "\n", "\n  "))
+	}
+	return 1
 }
